@@ -42,6 +42,7 @@ type Type struct {
 	Name    string   `json:"name"`
 	Alias   string   `json:"alias,omitempty"` // "" = defined struct type; otherwise the aliased type expression (e.g. "int", "q.B")
 	Enabled []string `json:"enabled,omitempty"`
+	Doc     []string `json:"doc,omitempty"` // doc comment lines above the tags (e.g. "T0 T0 is ..."); read back through Context.Doc
 }
 
 type Pkg struct {
@@ -49,6 +50,9 @@ type Pkg struct {
 	Name    string   `json:"name"`
 	Types   []Type   `json:"types,omitempty"`
 	Imports []string `json:"imports,omitempty"` // dirs of packages of this module it imports
+	// DocTags: generator names g for which the package's file doc (doc.go) carries "+gengo:<g>", i.e. the generator is
+	// enabled for every type of THIS package.
+	DocTags []string `json:"doc_tags,omitempty"`
 }
 
 type File struct {
@@ -86,6 +90,9 @@ func (m *Module) source(p Pkg) string {
 	b.WriteString("\nconst Anchor = 0\n")
 	for _, t := range p.Types {
 		b.WriteString("\n")
+		for _, l := range t.Doc {
+			fmt.Fprintf(&b, "// %s\n", l)
+		}
 		for _, g := range t.Enabled {
 			fmt.Fprintf(&b, "// +gengo:%s\n", g)
 		}
@@ -122,6 +129,17 @@ func (m *Module) Materialise(root string) error {
 		if err := write(filepath.ToSlash(filepath.Join(p.Dir, base+".go")), m.source(p)); err != nil {
 			return err
 		}
+		if len(p.DocTags) > 0 {
+			var b strings.Builder
+			fmt.Fprintf(&b, "// Package %s carries package-level tags.\n//\n", p.Name)
+			for _, g := range p.DocTags {
+				fmt.Fprintf(&b, "// +gengo:%s\n", g)
+			}
+			fmt.Fprintf(&b, "package %s\n", p.Name)
+			if err := write(filepath.ToSlash(filepath.Join(p.Dir, "doc.go")), b.String()); err != nil {
+				return err
+			}
+		}
 	}
 	for _, f := range m.Files {
 		if err := write(f.Path, f.Content); err != nil {
@@ -157,19 +175,27 @@ type DeferStep struct {
 // Step is what a scripted generator does when called for one (package, type).
 // Res: "" nil | "skip" | "skipw" (wrapped) | "ignore" | "ignorew" | "err" | "exit" | "kill" | "panic".
 type Step struct {
-	Body   string      `json:"body,omitempty"`
-	Res    string      `json:"res,omitempty"`
-	Count  bool        `json:"count,omitempty"`  // also render a declaration that spells the instance's call counter
-	Helper bool        `json:"helper,omitempty"` // also render a helper, once per instance
-	Use    []string    `json:"use,omitempty"`    // also render references "<pkgpath>.<Name>" through the import tracker (not modelled: Go-side checks only)
+	Body   string   `json:"body,omitempty"`
+	Res    string   `json:"res,omitempty"`
+	Count  bool     `json:"count,omitempty"`  // also render a declaration that spells the instance's call counter
+	Helper bool     `json:"helper,omitempty"` // also render a helper, once per instance
+	Use    []string `json:"use,omitempty"`    // also render references "<pkgpath>.<Name>" through the import tracker (not modelled: Go-side checks only)
+	// DocOf: also render, as comments, the doc lines Context.Doc returns for the objects "<pkgpath>.<Name>" (own or another
+	// loaded package's types).  Not modelled: Go-side checks only.
+	DocOf  []string    `json:"doc_of,omitempty"`
 	Defers []DeferStep `json:"defers,omitempty"`
 }
 
 type Gen struct {
-	Name      string          `json:"name"`
-	Alias     bool            `json:"alias,omitempty"`      // implements AliasGenerator
-	CustomNew bool            `json:"custom_new,omitempty"` // implements GeneratorNewer
-	Steps     map[string]Step `json:"steps,omitempty"`      // key: "<pkgpath> <type>"
+	Name      string `json:"name"`
+	Alias     bool   `json:"alias,omitempty"`      // implements AliasGenerator
+	CustomNew bool   `json:"custom_new,omitempty"` // implements GeneratorNewer
+	// Proto (only without CustomNew): the value passed to gengo.Register is built by a constructor and carries non-nil
+	// reference fields (a map and a pointer used for the per-package bookkeeping) instead of being a zero value; the
+	// instance gengo creates per package is a zero value, so GenerateType allocates them lazily.  Same behaviour as
+	// the zero-prototype generators when every package really gets a fresh instance.
+	Proto bool            `json:"proto,omitempty"`
+	Steps map[string]Step `json:"steps,omitempty"` // key: "<pkgpath> <type>"
 }
 
 type Job struct {
@@ -179,7 +205,10 @@ type Job struct {
 	Force bool     `json:"force"`
 	Base  string   `json:"base"`
 	Gens  []Gen    `json:"gens"`
-	Out   string   `json:"out"` // prefix of the files the child writes: <out>.world.json, <out>.log, <out>.result.json
+	// Globals -> GeneratorArgs.Globals (nil unless GlobalsSet or non-empty)
+	Globals    map[string][]string `json:"globals,omitempty"`
+	GlobalsSet bool                `json:"globals_set,omitempty"`
+	Out        string              `json:"out"` // prefix of the files the child writes: <out>.world.json, <out>.log, <out>.result.json
 	// Gate: if set, the child writes <out>.ready after NewContext and waits for this file to appear before it calls
 	// Execute (so that a tracer can be attached to exactly the Execute phase).
 	Gate string `json:"gate,omitempty"`
@@ -274,6 +303,26 @@ func die(res string) {
 	}
 }
 
+// docOf asks the generator context for the documentation of "<pkgpath>.<Name>" and spells the answer as comment lines.
+func docOf(c gengo.Context, ref string) (out string) {
+	defer func() {
+		if recover() != nil {
+			out = "// doc of " + ref + ": <not loaded>\n"
+		}
+	}()
+	k := strings.LastIndex(ref, ".")
+	tn := c.Package(ref[:k]).Type(ref[k+1:])
+	if tn == nil {
+		return "// doc of " + ref + ": <no such type>\n"
+	}
+	_, lines := c.Doc(tn)
+	out = fmt.Sprintf("// doc of %s: %d line(s)\n", ref, len(lines))
+	for _, l := range lines {
+		out += "//   | " + l + "\n"
+	}
+	return out
+}
+
 func (s *state) call(name string, c gengo.Context, pkg, ty string) error {
 	st := scripts[name].Steps[pkg+" "+ty]
 	s.count++
@@ -284,6 +333,9 @@ func (s *state) call(name string, c gengo.Context, pkg, ty string) error {
 	if st.Helper && !s.helper {
 		s.helper = true
 		body += fmt.Sprintf("func helper_%s() {}\n", name)
+	}
+	for _, ref := range st.DocOf {
+		body += docOf(c, ref)
 	}
 	if body != "" {
 		c.Render(snippet.Block(body))
@@ -340,6 +392,67 @@ func (g *slot3) GenerateType(c gengo.Context, n *types.Named) error {
 	return g.call(slotNames[3], c, n.Obj().Pkg().Path(), n.Obj().Name())
 }
 
+// The same four shapes for generators whose registered prototype comes from a constructor (Gen.Proto): the bookkeeping
+// lives behind a map and a pointer.  A per-package instance made by reflect.New has both nil and allocates its own.
+type pstate struct {
+	seen map[string]bool // (package, type) pairs this instance was called for
+	st   *state
+}
+
+func newPstate() pstate { return pstate{seen: map[string]bool{}, st: &state{}} }
+
+func (p *pstate) call(name string, c gengo.Context, pkg, ty string) error {
+	if p.seen == nil {
+		p.seen = map[string]bool{}
+	}
+	if p.st == nil {
+		p.st = &state{}
+	}
+	p.seen[pkg+" "+ty] = true
+	p.st.count = len(p.seen) - 1 // the call counter is the size of the "already processed" set
+	return p.st.call(name, c, pkg, ty)
+}
+
+type pslot0 struct{ pstate }
+type pslot1 struct{ pstate }
+type pslot2 struct{ pstate }
+type pslot3 struct{ pstate }
+
+func (*pslot0) Name() string { return slotNames[0] }
+func (*pslot1) Name() string { return slotNames[1] }
+func (*pslot2) Name() string { return slotNames[2] }
+func (*pslot3) Name() string { return slotNames[3] }
+func (g *pslot0) GenerateType(c gengo.Context, n *types.Named) error {
+	return g.call(slotNames[0], c, n.Obj().Pkg().Path(), n.Obj().Name())
+}
+func (g *pslot1) GenerateType(c gengo.Context, n *types.Named) error {
+	return g.call(slotNames[1], c, n.Obj().Pkg().Path(), n.Obj().Name())
+}
+func (g *pslot2) GenerateType(c gengo.Context, n *types.Named) error {
+	return g.call(slotNames[2], c, n.Obj().Pkg().Path(), n.Obj().Name())
+}
+func (g *pslot3) GenerateType(c gengo.Context, n *types.Named) error {
+	return g.call(slotNames[3], c, n.Obj().Pkg().Path(), n.Obj().Name())
+}
+
+type apslot0 struct{ pslot0 }
+type apslot1 struct{ pslot1 }
+type apslot2 struct{ pslot2 }
+type apslot3 struct{ pslot3 }
+
+func (g *apslot0) GenerateAliasType(c gengo.Context, n *types.Alias) error {
+	return g.call(slotNames[0], c, n.Obj().Pkg().Path(), n.Obj().Name())
+}
+func (g *apslot1) GenerateAliasType(c gengo.Context, n *types.Alias) error {
+	return g.call(slotNames[1], c, n.Obj().Pkg().Path(), n.Obj().Name())
+}
+func (g *apslot2) GenerateAliasType(c gengo.Context, n *types.Alias) error {
+	return g.call(slotNames[2], c, n.Obj().Pkg().Path(), n.Obj().Name())
+}
+func (g *apslot3) GenerateAliasType(c gengo.Context, n *types.Alias) error {
+	return g.call(slotNames[3], c, n.Obj().Pkg().Path(), n.Obj().Name())
+}
+
 // alias-capable wrappers
 type aslot0 struct{ slot0 }
 type aslot1 struct{ slot1 }
@@ -365,7 +478,7 @@ type newer struct {
 	name string
 }
 
-func (g *newer) Name() string                   { return g.name }
+func (g *newer) Name() string                        { return g.name }
 func (g *newer) New(c gengo.Context) gengo.Generator { return &newer{name: g.name} }
 func (g *newer) GenerateType(c gengo.Context, n *types.Named) error {
 	return g.call(g.name, c, n.Obj().Pkg().Path(), n.Obj().Name())
@@ -386,6 +499,25 @@ func prototype(i int, g Gen) gengo.Generator {
 		return &newer{name: g.Name}
 	}
 	slotNames[i] = g.Name
+	if g.Proto {
+		switch {
+		case g.Alias && i == 0:
+			return &apslot0{pslot0{newPstate()}}
+		case g.Alias && i == 1:
+			return &apslot1{pslot1{newPstate()}}
+		case g.Alias && i == 2:
+			return &apslot2{pslot2{newPstate()}}
+		case g.Alias && i == 3:
+			return &apslot3{pslot3{newPstate()}}
+		case i == 0:
+			return &pslot0{newPstate()}
+		case i == 1:
+			return &pslot1{newPstate()}
+		case i == 2:
+			return &pslot2{newPstate()}
+		}
+		return &pslot3{newPstate()}
+	}
 	switch {
 	case g.Alias && i == 0:
 		return &aslot0{}
@@ -498,7 +630,14 @@ func childMain(argv []string) int {
 		scripts[g.Name] = g
 		gengo.Register(prototype(i, g))
 	}
-	c, err := gengo.NewContext(&gengo.GeneratorArgs{Entrypoint: job.Entry, OutputFileBaseName: job.Base, All: job.All, Force: job.Force})
+	gargs := &gengo.GeneratorArgs{Entrypoint: job.Entry, OutputFileBaseName: job.Base, All: job.All, Force: job.Force}
+	if job.GlobalsSet || len(job.Globals) > 0 {
+		gargs.Globals = map[string][]string{}
+		for k, v := range job.Globals {
+			gargs.Globals[k] = v
+		}
+	}
+	c, err := gengo.NewContext(gargs)
 	if err != nil {
 		writeJSON(".result.json", ChildResult{NewContextErr: err.Error(), Class: "other"})
 		return 0
